@@ -260,6 +260,12 @@ func corpus() []tcase {
 	add(strategy.Fill, 3, 0, []strategy.Info{mk("u", 0, 0, maxInt, 1)}, maxInt)
 	add(strategy.Fill, 3, 1, []strategy.Info{mk("u", 0, 0, maxInt, 1), mk("v", 0, 0, 1, 0)}, maxInt)
 	add(strategy.Fill, 5, 2, []strategy.Info{mk("u", 0, 0, maxInt, 2), mk("v", 0, 0, maxInt, 0), mk("w", 0, 0, 2, 1)}, maxInt)
+	// outside the int64 domain: toDeploy (FILL) and Count++ (AUTO) wrap; the int64 twin must still agree
+	add(strategy.Fill, maxInt, 0, []strategy.Info{mk("a", 0, 0, maxInt, 0), mk("b", 0, 0, maxInt, 0), mk("c", 0, 0, maxInt, maxInt-2)}, maxInt)
+	add(strategy.Fill, maxInt, 2, []strategy.Info{mk("a", 0, 0, maxInt, 0), mk("b", 0, 0, maxInt, 1)}, maxInt)
+	add(strategy.Auto, 4, 0, []strategy.Info{mk("a", 0, 0, 5, maxInt), mk("b", 0, 0, 5, maxInt-1)}, 10)
+	add(strategy.Each, maxInt, 2, []strategy.Info{mk("a", 0, 0, maxInt, 0), mk("b", 0, 0, maxInt, 3), mk("c", 0, 0, 7, 0)}, maxInt)
+	add(strategy.Drained, maxInt, 0, []strategy.Info{mk("a", 0.5, 0, maxInt, 0), mk("b", 0.25, 0, 9, 3)}, maxInt)
 	// empty and singleton tables
 	all(1, 0, nil)
 	all(1, 1, nil)
@@ -556,7 +562,9 @@ func TestStrategy(t *testing.T) {
 	case "C03":
 		okFn = "Strategy.Model.C03_ok"
 	}
-	r.Coq("From Verif Require Import Base.GoFloat Strategy.Model.", "Strategy.Model.case", "Strategy.Model.agree", okFn)
+	// agreement is checked against the int64 twin of the model (Strategy/ModelW.v), which is
+	// proved equal to the Z model on the validated domain (Strategy/ProofsW.v)
+	r.Coq("From Verif Require Import Base.GoFloat Strategy.Model Strategy.ModelW.", "Strategy.Model.case", "Strategy.ModelW.agreeW", okFn)
 	r.Extra("Close Scope Z_scope.") // Base.GoFloat opens it; vh.Str emits nat literals
 	r.Shard = 250
 	g := gen{r}
